@@ -5,7 +5,11 @@ PID = "C19"
 ZOO = "legacy"
 
 
-def classify_line(ln, outcome, clause):
+def classify_line(ln, outcome, clause, mv=None):
+    """modelled operations: known iff the post-state is exactly the one Legacy.tla predicts and the model's error came
+    out of the attach phase (the named deviation); user transformations (not modelled): by the shape predicates"""
+    if mv is not None:
+        return "partial-attach-effects" if mv["conform"] and mv["partial"] else None
     return legacy.finding_partial_attach(ln, outcome, clause) or legacy.finding_transformer_partial(ln, outcome, clause)
 
 
